@@ -25,6 +25,8 @@
 //!                              the same server"
 //!   fs-slow-tcp          (vi)  same, when the winning path is a TCP reply whose latency exceeds
 //!                              connect_timeout (but is well inside timeout)
+//!   fs-slow-udp                same, when the winning path is a UDP reply whose latency exceeds
+//!                              connect_timeout (the UDP client's per-request timeout is `timeout`)
 //!   fs-nx-untrusted            a lookup that ends with the NXDOMAIN of an untrusted server has
 //!                              contacted every server first
 //!   fs-sharing           (vii) k identical callers started together complete at the same instant with
@@ -693,9 +695,13 @@ pub fn judge(rep: &mut Reporter, scn: &FScn) {
         if exact_ok {
             j.rep.eval();
             match &pred {
-                Pred::Answer { t, via_tc, tcp_l, slowest, after_conn_timeout, .. } if *t <= budget => {
+                Pred::Answer { t, server, proto, via_tc, tcp_l, slowest, after_conn_timeout } if *t <= budget => {
                     j.rep.count("fs_avail_exact_applicable");
                     let slow_tcp = matches!(tcp_l, Some(l) if *l > scn.connect_timeout);
+                    let slow_udp = *proto == 1 && matches!(scn.servers[*server].udp, Some(UdpBeh::Answer { d }) if d > scn.connect_timeout);
+                    if slow_udp {
+                        j.rep.count("fs_avail_exact_slow_udp");
+                    }
                     if *via_tc {
                         j.rep.count("fs_avail_exact_via_tc");
                     }
@@ -710,6 +716,8 @@ pub fn judge(rep: &mut Reporter, scn: &FScn) {
                             ("fs-truncation", format!("tcp-reply-{}-connect_timeout|got={got}", if slow_tcp { "gt" } else { "le" }))
                         } else if slow_tcp {
                             ("fs-slow-tcp", format!("got={got}"))
+                        } else if slow_udp {
+                            ("fs-slow-udp", format!("got={got}"))
                         } else {
                             ("fs-availability", format!("model=exact|slowest-failure={}|got={got}", slowest.0))
                         };
